@@ -69,6 +69,10 @@ pub struct Gen
     next_tok: u32,
     tokens: Vec<u32>,
     once_used: Vec<bool>,
+    /// (system, trigger) pairs registered so far: the same key is never registered twice for one system
+    regd: Vec<(u8, Trig)>,
+    /// mode of the first registration of each system: rc systems are registered once only
+    sysmode: Vec<u8>,
     budget: usize,
     steps_done: usize,
     pub steps_log: Vec<Step>,
@@ -80,8 +84,9 @@ impl Gen
     {
         let nonce = g.cfg.nonce;
         let budget = g.budget;
+        let nsys = g.cfg.nsys();
         Gen{ g, rng: StdRng::seed_from_u64(seed), next_p: 1, next_tok: 1, tokens: vec![], once_used: vec![false; nonce],
-             budget, steps_done: 0, steps_log: vec![] }
+             regd: vec![], sysmode: vec![0; nsys + 1], budget, steps_done: 0, steps_log: vec![] }
     }
 
     fn ty(&mut self) -> u8 { self.rng.gen_range(1..=self.g.ntypes) }
@@ -90,11 +95,11 @@ impl Gen
     fn payload(&mut self) -> u32 { let p = self.next_p; self.next_p += 1; p }
 
     /// A system that can be referenced: pre-spawned ones, issued one-off slots, world reactors are not addressed directly.
-    fn sys(&mut self) -> u8
+    fn sys(&mut self, applied: &[bool]) -> u8
     {
         let nsys = self.g.cfg.nsys();
         let mut pool: Vec<u8> = (1..=nsys as u8).collect();
-        for (i, used) in self.once_used.iter().enumerate() { if *used { pool.push((nsys + 1 + i) as u8); } }
+        for (i, ok) in applied.iter().enumerate() { if *ok { pool.push((nsys + 1 + i) as u8); } }
         pool[self.rng.gen_range(0..pool.len())]
     }
 
@@ -111,13 +116,22 @@ impl Gen
         }
     }
 
-    fn bundle(&mut self) -> Vec<Trig>
+    /// A bundle without duplicates that does not repeat a key already registered for `s` (0 = no such check).
+    fn bundle(&mut self, s: u8) -> Vec<Trig>
     {
         let n = self.rng.gen_range(0..=self.g.max_bundle);
-        (0..n).map(|_| self.trig()).collect()
+        let mut out: Vec<Trig> = vec![];
+        for _ in 0..n
+        {
+            let t = self.trig();
+            if out.contains(&t) || self.regd.contains(&(s, t)) { continue; }
+            out.push(t);
+        }
+        if s != 0 { for t in out.iter() { self.regd.push((s, *t)); } }
+        out
     }
 
-    fn op(&mut self, in_ew: bool, exclusive: bool) -> Option<Op>
+    fn op(&mut self, in_ew: bool, exclusive: bool, applied: &[bool]) -> Option<Op>
     {
         for _ in 0..20
         {
@@ -126,8 +140,8 @@ impl Gen
             if exclusive && needs_access { continue; }
             let op = match name.as_str()
             {
-                "run" => Op::Run(self.sys()),
-                "sysev" => Op::SysEv(self.sys(), self.payload()),
+                "run" => Op::Run(self.sys(applied)),
+                "sysev" => Op::SysEv(self.sys(applied), self.payload()),
                 "bc" => Op::Bc(self.ty(), self.payload()),
                 "eev" => Op::EEv(self.ent(), self.ty(), self.payload()),
                 "res" => Op::Res(self.ty()),
@@ -141,12 +155,16 @@ impl Gen
                 "trig" => Op::Trig(self.ent(), self.ty()),
                 "rm" => Op::Rm(self.ent(), self.ty()),
                 "desp" => Op::Desp(self.ent()),
-                "despsys" => Op::DespSys(self.sys()),
+                "despsys" => Op::DespSys(self.sys(applied)),
                 "reg" =>
                 {
                     let m = self.g.modes[self.rng.gen_range(0..self.g.modes.len())].clone();
                     let s = self.rng.gen_range(1..=self.g.cfg.nsys()) as u8;
-                    let b = self.bundle();
+                    let rc = m != "persistent";
+                    // a system is either registered once in a reference-counted mode or any number of times persistently
+                    if self.sysmode[s as usize] == 2 || (self.sysmode[s as usize] == 1 && rc) { continue; }
+                    self.sysmode[s as usize] = if rc { 2 } else { 1 };
+                    let b = self.bundle(s);
                     let k = if m == "revokable" { let k = self.next_tok; self.next_tok += 1; self.tokens.push(k); k } else { 0 };
                     Op::Reg(m, s, b, k)
                 }
@@ -154,7 +172,7 @@ impl Gen
                 {
                     let Some(slot) = self.once_used.iter().position(|u| !*u) else { continue };
                     self.once_used[slot] = true;
-                    let b = self.bundle();
+                    let b = self.bundle(0);
                     let k = self.next_tok; self.next_tok += 1; self.tokens.push(k);
                     Op::Once((self.g.cfg.nsys() + 1 + slot) as u8, b, k)
                 }
@@ -164,8 +182,8 @@ impl Gen
                     Op::Revoke(self.tokens[self.rng.gen_range(0..self.tokens.len())])
                 }
                 "probe" => Op::Probe,
-                "wadd" => { if self.g.cfg.nworld == 0 { continue; } Op::WAdd(self.rng.gen_range(1..=self.g.cfg.nworld) as u8, self.bundle()) }
-                "wrem" => { if self.g.cfg.nworld == 0 { continue; } Op::WRem(self.rng.gen_range(1..=self.g.cfg.nworld) as u8, self.bundle()) }
+                "wadd" => { if self.g.cfg.nworld == 0 { continue; } let w = self.rng.gen_range(1..=self.g.cfg.nworld) as u8; let b = self.bundle(100 + w); Op::WAdd(w, b) }
+                "wrem" => { if self.g.cfg.nworld == 0 { continue; } let w = self.rng.gen_range(1..=self.g.cfg.nworld) as u8; let b = self.bundle(0); self.regd.retain(|(s, t)| !(*s == 100 + w && b.contains(t))); Op::WRem(w, b) }
                 "wrun" => { if self.g.cfg.nworld == 0 { continue; } Op::WRun(self.rng.gen_range(1..=self.g.cfg.nworld) as u8) }
                 "eadd" => { if self.g.cfg.neworld == 0 || in_ew { continue; } Op::EAdd(1, self.ent(), self.val()) }
                 "erem" =>
@@ -183,13 +201,13 @@ impl Gen
         None
     }
 
-    fn ops(&mut self, in_ew: bool, exclusive: bool, min: usize) -> Vec<Op>
+    fn ops(&mut self, in_ew: bool, exclusive: bool, min: usize, applied: &[bool]) -> Vec<Op>
     {
         let max = self.g.max_ops.min(self.budget);
         if max < min { return vec![]; }
         let n = self.rng.gen_range(min..=max);
         let mut out = vec![];
-        for _ in 0..n { if let Some(op) = self.op(in_ew, exclusive) { out.push(op); } }
+        for _ in 0..n { if let Some(op) = self.op(in_ew, exclusive, applied) { out.push(op); } }
         self.budget -= out.len().min(self.budget);
         out
     }
@@ -201,7 +219,15 @@ impl Gen
         let step = if self.steps_done == 1 && !self.g.init.is_empty()
         {
             // tokens handed out by the init ops
-            for op in self.g.init.clone() { if let Op::Reg(_, _, _, k) | Op::Once(_, _, k) = op { if k > 0 { self.tokens.push(k); self.next_tok = self.next_tok.max(k + 1); } } }
+            for op in self.g.init.clone()
+            {
+                if let Op::Reg(_, _, _, k) | Op::Once(_, _, k) = op { if k > 0 { self.tokens.push(k); self.next_tok = self.next_tok.max(k + 1); } }
+                if let Op::Reg(m, s, b, _) = &op
+                {
+                    self.sysmode[*s as usize] = if m == "persistent" { 1 } else { 2 };
+                    for t in b.iter() { self.regd.push((*s, *t)); }
+                }
+            }
             Step::Ops(self.g.init.clone())
         }
         else if self.rng.gen_range(0..100) < self.g.p_gcpoll
@@ -212,7 +238,9 @@ impl Gen
         {
             // every ops step gets at least one op even when the budget is spent
             if self.budget == 0 { self.budget = 1; }
-            Step::Ops(self.ops(false, false, 1))
+            // between trees everything issued has been applied
+            let applied = self.once_used.clone();
+            Step::Ops(self.ops(false, false, 1, &applied))
         };
         self.steps_log.push(step.clone());
         Some(step)
@@ -229,7 +257,7 @@ impl ScriptSource for SharedGen
         let nsys = st.cfg.nsys();
         let in_ew = st.cfg.neworld > 0 && sys == nsys + st.cfg.nonce + st.cfg.nworld + 1;
         let exclusive = sys >= 1 && sys <= nsys && st.cfg.kinds[sys - 1] == "excl";
-        let ops = g.ops(in_ew, exclusive, 0);
+        let ops = g.ops(in_ew, exclusive, 0, &st.once_applied);
         let err = g.rng.gen_range(0..100) < g.g.p_err;
         let notake = g.rng.gen_range(0..100) < g.g.p_notake;
         let take2 = !notake && g.rng.gen_range(0..100) < 30;
